@@ -5,6 +5,7 @@ import (
 	"fmt"
 	"io"
 	"os"
+	"reflect"
 	"runtime"
 	"strings"
 	"sync"
@@ -387,6 +388,90 @@ func TestC07(t *testing.T) {
 			return tr.WriteAt(i).Data, nil
 		}, nNode)
 		node.Close()
+	}
+	// both directions of one link in use: correctly signed frames whose timestamps are AHEAD of the local clock (a peer whose
+	// clock runs ahead, the boundary value 2^48-1) are accepted on the link first; what is written on it afterwards still
+	// carries the local time since 2015-01-01
+	{
+		hbInfo := (*msgInfo)(nil)
+		if l, err := ref.LayoutOf(reflect.TypeOf(common.MessageHeartbeat{})); err == nil {
+			hbInfo = &msgInfo{Name: "common.MessageHeartbeat", Msg: &common.MessageHeartbeat{}, Type: reflect.TypeOf(common.MessageHeartbeat{}), Layout: l}
+		}
+		future := func(r *vh.RNG, ahead uint64, linkID byte) []byte {
+			sp, _ := validFrame(r, hbInfo, 2, 0, true, keyRaw)
+			sp.LinkID = linkID
+			sp.Timestamp = ahead
+			ref.Seal(sp, hbInfo.Layout.CRCExtra, keyRaw)
+			return ref.Serialize(sp)
+		}
+		rf := vh.Sub(seed, "c07-future")
+		aheads := []uint64{ticksNow() + 360000000, ticksNow() + 100000, 0xFFFFFFFFFFFF}
+		if hbInfo != nil {
+			for ai, ahead := range aheads {
+				var in bytes.Buffer
+				rw := &recWriter{}
+				frw := &frame.ReadWriter{ByteReadWriter: struct {
+					io.Reader
+					io.Writer
+				}{&in, rw}, DialectRW: drw, InKey: key, OutKey: key, OutVersion: frame.V2, OutSystemID: 1}
+				if err := frw.Initialize(); err != nil {
+					t.Fatal(err)
+				}
+				for lid := 0; lid < 3; lid++ {
+					in.Write(future(rf, ahead-uint64(2-lid), byte(lid)))
+					if _, err := frw.Read(); err != nil {
+						rep.Observe("c07: a correctly signed frame dated ahead of the local clock was refused by the reader: " + err.Error())
+					} else {
+						rep.Count("future_dated_frames_accepted_before_writing", 1)
+					}
+				}
+				checkLink(fmt.Sprintf("readwriter-after-future-frame-%d", ai), func(i int) ([]byte, error) {
+					hbMsg.CustomMode = uint32(i)
+					rw.reset()
+					err := frw.WriteMessage(hbMsg)
+					return rw.all(), err
+				}, 50)
+			}
+			for ai, ahead := range aheads {
+				tr := fake.NewTransport("c07f")
+				node := &gomavlib.Node{
+					Endpoints:        []gomavlib.EndpointConf{gomavlib.EndpointCustom{ReadWriteCloser: tr}},
+					Dialect:          &dialect.Dialect{Version: 3, Messages: []message.Message{&common.MessageHeartbeat{}}},
+					OutVersion:       gomavlib.V2,
+					OutSystemID:      5,
+					OutKey:           key,
+					InKey:            key,
+					HeartbeatDisable: true,
+				}
+				if err := node.Initialize(); err != nil {
+					t.Fatal(err)
+				}
+				<-node.Events()
+				tr.Feed(future(rf, ahead, 3))
+				select {
+				case e := <-node.Events():
+					if _, ok := e.(*gomavlib.EventFrame); ok {
+						rep.Count("future_dated_frames_accepted_before_writing", 1)
+					}
+				case <-time.After(2 * time.Second):
+				}
+				go func() {
+					for range node.Events() {
+					}
+				}()
+				checkLink(fmt.Sprintf("node-after-future-frame-%d", ai), func(i int) ([]byte, error) {
+					m := &common.MessageHeartbeat{CustomMode: uint32(i), MavlinkVersion: 3}
+					if err := node.WriteMessageAll(m); err != nil {
+						return nil, err
+					}
+					if got := tr.WaitWrites(i+1, 3*time.Second); got < i+1 {
+						return nil, fmt.Errorf("node emitted %d of %d frames (no progress)", got, i+1)
+					}
+					return tr.WriteAt(i).Data, nil
+				}, 50)
+				node.Close()
+			}
+		}
 	}
 	// writes packed around wall-clock second boundaries (a timestamp assembled from two clock readings breaks there)
 	{
